@@ -49,10 +49,13 @@ LEVEL = {
          "text's (sign, digits, exponent) at the C07 width, fails only when it does not fit (None for the fallible conversions, never for the ones offered as From), specials map to ±inf and a "
          "quiet payload-free NaN of the same sign, and converting back returns the identical bits.",
          "ryu is an external crate: RyuContractWide is assumed, not proved; the harness passes ryu's text for the same float and the Lean oracle re-checks every clause of the contract on "
-         "every request (evidence: assumed_contract_broken). str::parse is modelled as exact RNE."),
+         "every request (evidence: assumed_contract_broken). str::parse is modelled as Spec.rneDecSafe, proved to be round-to-nearest-even (Proofs.Rne). Sweeps: from_f32→to_f32 gives back "
+         "identical bits on every f32 bit pattern (thorough: all 2^32 for Bitstring32/64/Bitstring; quick: a strided tenth)."),
  "C13": ("Theorems C13_sound, C13_overflow, C13_infinity, C13_nan, C13_some, C13_b32_total: a Some is the round-to-nearest-even float of the exact value with the decimal's sign, "
          "None on overflow, Some guaranteed for ≤17 significant digits at widths ≤160 bits, every Bitstring32 converts to f64; scratch-buffer arithmetic floatText_some_iff.",
-         "Relative to the model of str::parse::<f32|f64> as exact rational RNE (Spec.rneDecSafe); compared with the real str::parse on every request incl. generated ties."),
+         "Relative to the model of str::parse::<f32|f64> as Spec.rneDecSafe, which is itself proved to be IEEE round-to-nearest-even over exact rationals "
+         "(Proofs.Rne: nearest among all finite patterns, ties to the even pattern, overflow exactly from (2^prec − 1/2)·2^(emax−prec+1), monotone; also stated over ℚ); that the real "
+         "str::parse rounds that way is assumed and compared on every request incl. generated ties and, in the sweeps, against the Display text on all 2^32 Bitstring32 patterns (thorough)."),
  "C14": ("Theorems C14_frag, C14_fits, C14_fault, C14_swallow for every fragment list (empty fragments included), every capacity and all three buffer kinds: streaming = string parse of the "
          "concatenation, or buffer-too-small only when the text is longer than the buffer; a failing or error-swallowing Display never yields a value.",
          "core::fmt's delivery of fragments is modelled by `feed`."),
